@@ -1,2 +1,11 @@
 import Plonk.Props.C04
-#print axioms Plonk.Props.C04.placeholder_consts
+#print axioms Plonk.Props.C04.len_mismatch_rejected
+#print axioms Plonk.Props.C04.outcome_total
+#print axioms Plonk.Props.C04.pi_changes_transcript
+#print axioms Plonk.Props.C04.label_changes_transcript
+#print axioms Plonk.Props.C04.circuit_changes_transcript
+#print axioms Plonk.Props.C04.version_enters_through_two_flags
+#print axioms Plonk.Props.C04.version_matrix
+#print axioms Plonk.Props.C04.version_transcripts
+#print axioms Plonk.Props.C04.pi_eval_is_barycentric
+#print axioms Plonk.Props.C04.pi_eval_injective
